@@ -1416,6 +1416,18 @@ def _norm_fit_tree(tree):
 
 
 def translate(repo: Path) -> str:
+    from harness.core import TranslationError
+    try:
+        return _translate(repo)
+    except TranslationError:
+        raise
+    except RecursionError as ex:
+        raise TranslationError(f"translator: recursion limit ({ex})") from ex
+    except Exception as ex:            # an unexpected shape inside a normalisation: fail closed, never crash the check
+        raise TranslationError(f"translator: {type(ex).__name__}: {ex}") from ex
+
+
+def _translate(repo: Path) -> str:
     tree = parse(repo, REL)
     helpers = _helpers(tree)
     target_first = _check_dispatch(find_func(tree, "check_fit_ranges"))
